@@ -24,6 +24,8 @@ func main() {
 		os.Exit(check(os.Args[2:]))
 	case "thorough":
 		os.Exit(thorough(os.Args[2:]))
+	case "mutant":
+		os.Exit(oneMutant(os.Args[2:]))
 	case "rules":
 		for _, r := range rules.All() {
 			fmt.Printf("%-24s %v  %s\n", r.Name, r.Props, r.Doc)
